@@ -744,6 +744,16 @@ def run(ctx):
     del m1
     e1seq = list(e1.rec.seq)
     e1procs = Counter((e[1], tuple(e[2])) for e in e1seq if e[0] == "objproc")
+    # ---- thorough tier of the fault-enumeration properties: every failure point the census saw, not a drawn one
+    if os.environ.get("VERIF_TIER") == "thorough" and prop in ("C15", "C33"):
+        faults = all_faults(prop, counts, w, refs, cfg)
+        for k_, fault in enumerate(faults):
+            run_fault(ctx, prop, w, cfg, cfgcls, fault, as_string, d1, counts, refs, e1seq, e1procs)
+            ctx.stats["fault_points_enumerated"] += 1
+            if ctx.violations:
+                break
+        ctx.nontrivial = bool(faults)
+        return
     # ---- faulted load (fresh E2, weak recorder)
     fault = draw_fault(t, prop, counts, w, refs, cfg)
     if fault is None:
@@ -808,6 +818,37 @@ def draw_fault(t, prop, counts, w, refs, cfg):
     if not ents:
         return None
     return ("input", "syntax", t.pick(ents, "fault-ent"))
+
+
+def all_faults(prop, counts, w, refs, cfg, cap=90):
+    """Every failure point of this world: each crossing of each callback site (exception kinds rotate when all
+    combinations would exceed the cap), and - for C15 - every reference dangling / never resolving and a syntax
+    error before every entity."""
+    out = []
+    if prop == "C33":
+        sites, kinds = ["matchproc", "objproc"], ["tx", "txloc", "valwrap", "txpartial", "txloc-sem"]
+    else:
+        sites, kinds = CALLBACK_SITES, ["tx", "val", "txloc", "key", "txpartial"]
+    points = [(s_, k) for s_ in sites for k in range(1, counts.get(s_, 0) + 1)]
+    if len(points) * len(kinds) <= cap:
+        out = [("callback", s_, k, e) for (s_, k) in points for e in kinds]
+    else:
+        stride = max(1, len(points) // cap + (1 if len(points) % cap else 0)) if len(points) > cap else 1
+        for i, (s_, k) in enumerate(points):
+            if i % stride == 0:
+                out.append(("callback", s_, k, kinds[i % len(kinds)]))
+    if prop == "C15":
+        for r in refs:
+            out.append(("input", "dangling", r))
+            out.append(("input", "never", r))
+        for f in w.closure():
+            for e in w.all_ents(w.files[f]):
+                if e.kind != "inner":
+                    out.append(("input", "syntax", e))
+        if len(out) > 2 * cap:
+            step = len(out) // (2 * cap) + 1
+            out = out[::step]
+    return out
 
 
 def apply_input_fault(w, fault):
@@ -1096,11 +1137,14 @@ RULES = {
            "processors, object processors, model processors, user __init__, pre-ref-resolution callback); one "
            "(site, k, exception kind) or input corruption (syntax / dangling / never) is drawn from what really "
            "happens; after the failure: weak references dead after gc, classes uninstrumented, repository snapshot, "
-           "recovery load equals the census dump; non-trivial = the load failed; distinct = (world, fault)",
+           "recovery load equals the census dump; non-trivial = the load failed; distinct = (world, fault). THOROUGH "
+           "tier: not one drawn fault but every crossing of every site (exception kinds rotating) plus every reference "
+           "dangling / never resolving and a syntax error before every entity (coverage.counters.fault_points_enumerated)",
     "C33": "the injected fault is the k-th match-processor (Tag/INT/QN) or object-processor call raising TextXError "
            "without location / with sentinel location / ValueError under textxerror_wrap; string and file loads, main "
            "and imported files; expected line/col/nchar/filename from the generator's token table and the parse-time "
-           "snapshot; non-trivial = the load failed; distinct = (world, site, k, kind)",
+           "snapshot; non-trivial = the load failed; distinct = (world, site, k, kind). THOROUGH tier: every match- and "
+           "object-processor call of the census fails in turn with every exception kind",
 }
 ASSUMPTIONS = {
     "C13": ["template family of tvsim/gen.py; abstract alternatives are common rules"],
